@@ -23,6 +23,15 @@ theorem interleaving_independent (T : Nat → Thread Loc σ) (R W : Nat → Loc 
     (hR : Respects T R W) (hD : DisjointFootprints R W) : Independent T R W :=
   fun c sched i => run_projects hR hD sched i c c (sameView_refl i c)
 
+/-- **interleaving_independent_on_path.**  The same conclusion when the footprints are only known to be respected
+    in the configurations the interleaving actually passes through (footprints that depend on the state reached,
+    e.g. which object a pointer designates) — nothing is assumed about unreachable local states. -/
+theorem interleaving_independent_on_path (T : Nat → Thread Loc σ) (R W : Nat → Loc → Prop)
+    (hD : DisjointFootprints R W) (c : Cfg Loc σ) (sched : List Nat)
+    (hR : ∀ p, p <+: sched → RespectsAt T R W (run T c p)) (i : Nat) :
+    SameView R W i (run T c sched) (runAlone T c i (sched.count i)) :=
+  run_projects_at hD sched i c c (sameView_refl i c) hR
+
 /-- **race_free.**  Under the same hypotheses no reachable configuration has two different threads with conflicting
     enabled actions (nothing for a happens-before race detector to report). -/
 theorem race_free (T : Nat → Thread Loc σ) (R W : Nat → Loc → Prop)
